@@ -33,7 +33,7 @@ def oracle(case, line):
         bad.append(("internal-error", "internal_error thrown in the main or disk thread (orphan result / unmapped or invalid chunk)"))
     if pushes != len(seen) + h:
         bad.append(("lost-chunk", "pushed=%d but notified=%d + still queued nodes=%d" % (pushes, len(seen), h)))
-    mb = re.search(r"B (\d+)", extra)
+    mb = re.search(r" B (\d+)", tail)
     if mb and int(mb.group(1)) != h:
         bad.append(("handle-count", "blocking handle count %s differs from pending nodes %d (mapping released twice or leaked)" % (mb.group(1), h)))
     # deadlock / lost wake-up: the schedule ends with a long round-robin tail; if a thread is unfinished and
